@@ -281,7 +281,7 @@ func reimportCause(m *sysl.Module, d []string) string {
 		}
 		return nil
 	}
-	allCollector, allMixin := true, true
+	allCollector, allMixin, allEither := true, true, true
 	for _, line := range d {
 		a := appOf(line)
 		cls := oracle.PathClass(line)
@@ -301,12 +301,18 @@ func reimportCause(m *sysl.Module, d []string) string {
 		if !chain {
 			allMixin = false
 		}
+		if !chain && !(a != nil && a.Endpoints[".. * <- *"] != nil && strings.Contains(cls, "attrs[]")) {
+			allEither = false
+		}
 	}
 	switch {
 	case allCollector:
 		return "collector-attributes-applied-again"
 	case allMixin:
 		return "mixin-chain-propagates-further"
+	case allEither:
+		// a model with both shapes: every differing line is explained by one of the two listed causes
+		return "collector-attributes-applied-again+mixin-chain-propagates-further"
 	}
 	return oracle.PathClass(d[0])
 }
